@@ -516,6 +516,7 @@ fn run_ops<P: Payload>(prog: &FesProgram, prop: &str, n: usize, t: u64, page: us
     let mut tie_seen = false;
     let mut wrap_seen = false;
     let mut zst_created: u64 = 0;
+    let mut tie_candidates: Vec<(usize, usize)> = Vec::new();
     let want_c01 = prop == "C01";
     let want_c03 = prop == "C03";
     let want_c15 = prop == "C15";
@@ -538,7 +539,7 @@ fn run_ops<P: Payload>(prog: &FesProgram, prop: &str, n: usize, t: u64, page: us
     loop {
         let op: FesOp = if step < total_ops {
             prog.ops[step].clone()
-        } else if prog.drain && pending > 0 {
+        } else if (prog.drain || want_c03) && pending > 0 {
             FesOp::Fetch
         } else {
             break;
@@ -752,12 +753,20 @@ fn run_ops<P: Payload>(prog: &FesProgram, prop: &str, n: usize, t: u64, page: us
                     return;
                 }
                 if want_c03 && got != exp_exact && P::ID_BITS == 64 {
-                    // tie rule: among pending events of this timestamp
-                    bail!(Violation::new("C03", "tie-order", format!(
-                        "at {time_ns} ns event {got} (scheduled {}) was dispatched before event {exp_exact} (scheduled {}) which the tie rule ranks first",
-                        if entries[got].zero { "for the current instant" } else { "ahead of time" },
-                        if entries[exp_exact].zero { "for the current instant" } else { "ahead of time" }
-                    )));
+                    // the tie rule ranks `exp_exact` before `got`. Whether an event is returned at all is C01's
+                    // statement, so the inversion only counts once the overtaken event is returned as well.
+                    if entries[exp_exact].time == time_ns {
+                        tie_candidates.push((got, exp_exact));
+                    }
+                }
+                if want_c03 {
+                    if let Some((x, y)) = tie_candidates.iter().find(|(_, y)| *y == got).copied() {
+                        bail!(Violation::new("C03", "tie-order", format!(
+                            "at {time_ns} ns event {x} (scheduled {}) was dispatched before event {y} (scheduled {}) which the tie rule ranks first",
+                            if entries[x].zero { "for the current instant" } else { "ahead of time" },
+                            if entries[y].zero { "for the current instant" } else { "ahead of time" }
+                        )));
+                    }
                 }
                 if got != exp_exact && !want_c03 && !want_c01 {
                     // C15 run whose order diverged from the model: not C15's business
